@@ -67,6 +67,10 @@ def run(chk, tier):
     # the groups' times and the collection-time range are the message headers' date-times: that accessor's closed form (C08)
     from rules import c08
     chk.floor("message-header date-time accessor", c08.accessor(chk, prog, cm.evaluator(prog), M + "message_header::MessageHeader::date_time", no_panic=True), 1)
+    # groups are runs of one message type, and the type of a message is what MessageHeader::message_type makes of the code
+    # byte: two codes mapped to one variant merge adjacent runs (C10's table)
+    from rules import c10
+    c10.type_table(chk, prog, cm.evaluator(prog))
     fn = prog.fn(FN)
     if fn is None:
         chk.blind("VN", FN, "summarize::messages not found")
